@@ -65,29 +65,63 @@ def fold_block(stmts, name, env=None):
 
 
 def rule_sizes(ctx):
+  """The sizes tried by CheckBitPatterns, read off the VALUE the size loop iterates over: when the constructor argument is None it is the documented
+  default list (as a set: 1..15 odd, 2^k - 1 for 31..511, powers of two 8..256), otherwise it is exactly the supplied list."""
+  from pcstatic import wtable
   R = "R-C05-SIZES"
   repo = ctx.repo
   b = body(repo, "CheckBitPatterns")
-  fn = b.func.node
-  blk = None
-  for s in fn.body:
-    if isinstance(s, ast.If) and norm(s.test) == "pattern_sizes is None":
-      blk = s.body
+  w = b.w
   need = set(range(1, 16, 2)) | {31, 63, 127, 255, 511} | {8, 16, 32, 64, 128, 256}
-  if blk is None:
-    ctx.violation(R, b.where(), "default pattern sizes", "no default list is installed when none is supplied")
+  calls = b.calls("repo:rsa_util:CheckFraction")
+  call_nodes = {id(e.node) for e in calls}
+  user = sym.mk("attr", P("param", "self"), "_pattern_sizes")
+  seen_default, seen_user, probs_d, probs_u = 0, 0, [], []
+  for li in w.loop_info.values():
+    if not isinstance(li["node"], ast.For) or not any(id(x) in call_nodes for x in ast.walk(li["node"])):
+      continue
+    if any(isinstance(x, (ast.For, ast.While)) and x is not li["node"] and any(id(y) in call_nodes for y in ast.walk(x)) for x in ast.walk(li["node"])):
+      continue          # an enclosing loop (over the keys): the size loop is the innermost one around the call
+    for vis in li["visits"]:
+      it = vis["iter"]
+      facts = vis["head"].facts
+      is_none = any(fc[0] == "cmp" and fc[1] in ("Is", "Eq") and isinstance(fc[2], Poly) and fc[2] == user and isinstance(fc[3], Const) and fc[3].v is None for fc in facts)
+      not_none = any(fc[0] == "cmp" and fc[1] in ("IsNot", "NotEq") and isinstance(fc[2], Poly) and fc[2] == user and isinstance(fc[3], Const) and fc[3].v is None for fc in facts)
+      if is_none:
+        seen_default += 1
+        items = wtable.list_items(it, [], unordered_ok=True) if not isinstance(it, Seq) else [as_poly(x) for x in it.items if not isinstance(x, (Seq, tuple))]
+        vals = [x.as_int() for x in items] if items is not None else None
+        if vals is None or any(v is None for v in vals):
+          probs_d.append("UNDECIDED the default list %r is not a list of known integers" % (it,))
+        else:
+          missing = sorted(need - set(vals))
+          if missing:
+            probs_d.append("documented default size(s) missing: %s" % missing)
+      elif not_none:
+        seen_user += 1
+        if not (isinstance(it, Poly) and it == user):
+          probs_u.append("with a supplied list the sizes tried are %r, not the supplied list" % (it,))
+      else:
+        probs_u.append("the sizes tried do not depend on whether a list was supplied")
+  if seen_default == 0:
+    probs_d.append("no default list is installed when none is supplied")
+  if any(p_.startswith("UNDECIDED") for p_ in probs_d):
+    ctx.incomplete(R, b.where(), "default pattern sizes", "; ".join(sorted(set(probs_d))))
   else:
-    try:
-      val = fold_block(blk, "pattern_sizes")
-      missing = sorted(need - set(val or []))
-      ctx.record(R, b.where(), "default pattern sizes", not missing, "covers 1..15 odd, 2^k - 1 (31..511), powers of two 8..256" if not missing else "documented default size(s) missing: %s" % missing)
-    except fold.NotConst as e:
-      ctx.incomplete(R, b.where(), "default pattern sizes", "not foldable: %s" % e)
-  pre = [norm(s) for s in fn.body]
+    ctx.record(R, b.where(), "default pattern sizes", not probs_d, "; ".join(sorted(set(probs_d))) or "covers 1..15 odd, 2^k - 1 (31..511), powers of two 8..256")
   init = b.cls.methods.get("__init__")
-  ok = "pattern_sizes = self._pattern_sizes" in pre and init is not None and any(norm(s) == "self._pattern_sizes = pattern_sizes" for s in init.node.body) and \
-      init.default_of("pattern_sizes") is not None and fold.try_fold(init.default_of("pattern_sizes"), default="x") is None
-  ctx.record(R, b.where(), "user list replaces the default only when given", ok, "None -> default list, otherwise the supplied list" if ok else "override logic changed")
+  oki = False
+  if init is not None:
+    wi = sym.Walker(repo, init)
+    wi.run()
+    sets = [e for e in wi.events if e.kind == "setattr" and e.data["attr"] == "_pattern_sizes"]
+    oki = bool(sets) and all(isinstance(e.data["value"], Poly) and e.data["value"] == P("param", "pattern_sizes") for e in sets) and \
+        init.default_of("pattern_sizes") is not None and fold.try_fold(init.default_of("pattern_sizes"), default="x") is None
+  if seen_user == 0:
+    probs_u.append("a supplied list is never used")
+  if not oki:
+    probs_u.append("the constructor does not keep the supplied list (default None)")
+  ctx.record(R, b.where(), "user list replaces the default only when given", not probs_u, "; ".join(sorted(set(probs_u))) or "None -> default list, otherwise the supplied list")
 
 
 def rule_cut(ctx):
@@ -116,6 +150,14 @@ def rule_cut(ctx):
       if sb is not None and sb[0].as_atom() is not None and sb[0].as_atom().kind == "idx":
         Ks.add(sb[1])
         okc = True
+  # the same cut written as a guard around the attempt: `if not size > limit: CheckFraction(..)`
+  for e in calls:
+    for fc in e.facts:
+      if fc[0] == "cmp" and fc[1] in ("LtE", "GtE") and isinstance(fc[2], Poly) and isinstance(fc[3], Poly):
+        sb = size_bound(("cmp", "Gt" if fc[1] == "LtE" else "Lt", fc[2], fc[3]))
+        if sb is not None and sb[0].as_atom() is not None and sb[0].as_atom().kind == "idx":
+          Ks.add(sb[1])
+          okc = True
   K = max(Ks) if Ks else None
   ctx.record(R, b.where(), "max pattern size = bit_length // K, K <= 16", K is not None and 1 <= K <= 16, "K = %r (statement: w at most 1/16 of the modulus length)" % K)
   # oversize patterns are skipped with continue (list is unordered); a break under the same comparison ends the search early
